@@ -20,6 +20,7 @@ import Purr.Props.C09
 import Purr.Lemmas.AutomatonL
 import Purr.Lemmas.GrammarEqL
 import Purr.Lemmas.ReaderL
+import Purr.Lemmas.BnfL
 namespace Purr.C04
 open Purr
 
@@ -86,5 +87,28 @@ example : Spec.classify "[13CH3+1]%01C%01.[Na+]".toList = .ok := by decide +kern
 example : Spec.classify "[C@TB20]([O-])(F)(Cl)(Br)I".toList = .ok := by decide +kernel
 example : Spec.classify "[C@TB21]".toList = .character 6 := by decide +kernel
 example : Spec.classify "C(C".toList = .endOfLine := by decide +kernel
+
+/-- THE READER ACCEPTS EXACTLY THE SENTENCES OF THE PRODUCTIONS IT DOCUMENTS (comments of src/read/read.rs:
+    `<smiles> ::= <atom> <body>*`, `<body> ::= <branch> | <split> | <union>`, `<branch> ::= "(" (<dot> | <bond>)?
+    <smiles> ")"`, `<split> ::= <dot> <smiles>`, `<union> ::= <bond>? (<smiles> | <rnum>)`), stated as the inductive
+    derivation relation `Spec.Bnf.Derives` (Purr/Spec/Bnf.lean) in which `<body>*` may stop anywhere and every optional
+    part is a free choice.  Both directions, for every string (Purr/Lemmas/BnfL.lean). -/
+theorem accepts_iff_productions (s : Str) : Accepted s ↔ Spec.Bnf.Sentence s := accepted_iff_sentence s
+
+/-- … hence the two formalisations of the documented grammar — productions over the terminals, and the character-level
+    automaton that also fixes the terminals — have the same sentences -/
+theorem productions_iff_automaton (s : Str) : Spec.Bnf.Sentence s ↔ Spec.classify s = .ok :=
+  (accepts_iff_productions s).symm.trans (accepts_iff_grammar s)
+
+/-! non-vacuity: a derivation of `C(=O)1.N1` (branch with a bond, ring closure, split), and a string without one -/
+example : Spec.Bnf.Sentence ['C', '(', '=', 'O', ')', '1', '.', 'N', '1'] :=
+  .smiles (k := .aliphatic .C) (r1 := ['(', '=', 'O', ')', '1', '.', 'N', '1']) rfl
+    (.cons (.branchBond (s1 := ['O', ')', '1', '.', 'N', '1']) ⟨.double, by decide, rfl⟩
+        (.smiles (k := .aliphatic .O) (r1 := [')', '1', '.', 'N', '1']) rfl .nil))
+      (.cons (.ring (n := ⟨1, by decide⟩) (r := ['.', 'N', '1']) rfl)
+        (.cons (.split (.smiles (k := .aliphatic .N) (r1 := ['1']) rfl
+            (.cons (.ring (n := ⟨1, by decide⟩) (r := []) rfl) .nil))) .nil)))
+example : ¬ Spec.Bnf.Sentence ['C', '('] := by
+  rw [productions_iff_automaton]; decide +kernel
 
 end Purr.C04
